@@ -1,9 +1,11 @@
 import Driver.Engine
+import Driver.Cg
 
 open Driver
 
 def dispatch (comp : String) (toks : List String) : String :=
   if comp == "engine" then handleEngine toks
+  else if comp == "cg" then handleCg toks
   else "bad-op"
 
 partial def loop (h : IO.FS.Stream) (out : IO.FS.Stream) : IO Unit := do
